@@ -486,13 +486,21 @@ func ruleR153(c *Ctx) {
 		}
 		return true
 	})
-	if sw == nil {
-		c.Undecided(key, fd.Pos(), "escape switch not found (string literals are decoded in another way)")
-		return
-	}
 	want := map[int64]int64{'n': '\n', 'r': '\r', 't': '\t', '"': '"', '\\': '\\'}
 	got := map[int64]int64{}
 	defaultKeeps := false
+	if sw == nil {
+		// the table as a function: if d, ok := unescape(e); ok { write(d) } else { write('\\'); write(e) }
+		hsw, pos, keeps, ok := escapeHelperForm(c, root, fd, got)
+		if !ok {
+			c.Undecided(key, fd.Pos(), "escape switch not found (string literals are decoded in another way)")
+			return
+		}
+		sw, defaultKeeps = hsw, keeps
+		_ = pos
+		r153verdict(c, key, sw.Pos(), want, got, defaultKeeps)
+		return
+	}
 	for _, cl := range sw.Body.List {
 		cc := cl.(*ast.CaseClause)
 		var written []int64
@@ -533,6 +541,10 @@ func ruleR153(c *Ctx) {
 			}
 		}
 	}
+	r153verdict(c, key, sw.Pos(), want, got, defaultKeeps)
+}
+
+func r153verdict(c *Ctx, key string, pos token.Pos, want, got map[int64]int64, defaultKeeps bool) {
 	var problems []string
 	for k, v := range want {
 		if g, ok := got[k]; !ok {
@@ -550,7 +562,155 @@ func ruleR153(c *Ctx) {
 		problems = append(problems, "an unknown escape does not keep the backslash and the character")
 	}
 	sort.Strings(problems)
-	c.Check(len(problems) == 0, key, sw.Pos(), `the escapes are exactly \n \r \t \" \\, any other pair is kept as it is`, "the escape table of string literals deviates: "+strings.Join(problems, "; "))
+	c.Check(len(problems) == 0, key, pos, `the escapes are exactly \n \r \t \" \\, any other pair is kept as it is`, "the escape table of string literals deviates: "+strings.Join(problems, "; "))
+}
+
+// escapeHelperForm recognises the escape table written as a function of the
+// package, rune -> (rune, bool), used as
+//
+//	if d, ok := h(e); ok { write(d) } else { write('\\'); write(e) }
+//
+// It fills got from the switch of h and reports whether the else branch keeps
+// the pair. ok is false if the form is not the one described.
+func escapeHelperForm(c *Ctx, root *packages.Package, fd *ast.FuncDecl, got map[int64]int64) (*ast.SwitchStmt, token.Pos, bool, bool) {
+	info := root.TypesInfo
+	writes := func(b *ast.BlockStmt) ([]ast.Expr, bool) {
+		var ws []ast.Expr
+		for _, st := range b.List {
+			es, ok := st.(*ast.ExprStmt)
+			if !ok {
+				return nil, false
+			}
+			call, ok := ast.Unparen(es.X).(*ast.CallExpr)
+			if !ok || len(call.Args) != 1 {
+				return nil, false
+			}
+			sel, ok := ast.Unparen(call.Fun).(*ast.SelectorExpr)
+			if !ok || (sel.Sel.Name != "WriteRune" && sel.Sel.Name != "WriteByte") {
+				return nil, false
+			}
+			ws = append(ws, call.Args[0])
+		}
+		return ws, true
+	}
+	var hsw *ast.SwitchStmt
+	keeps, found := false, false
+	ast.Inspect(fd.Body, func(x ast.Node) bool {
+		ifs, ok := x.(*ast.IfStmt)
+		if !ok || found {
+			return true
+		}
+		as, ok := ifs.Init.(*ast.AssignStmt)
+		if !ok || len(as.Lhs) != 2 || len(as.Rhs) != 1 {
+			return true
+		}
+		call, ok := ast.Unparen(as.Rhs[0]).(*ast.CallExpr)
+		if !ok || len(call.Args) != 1 {
+			return true
+		}
+		cal := Callee(info, call)
+		if cal == nil || cal.Pkg() != root.Types {
+			return true
+		}
+		hd := findFuncDecl(root, cal)
+		if hd == nil || hd.Body == nil || hd.Recv != nil || hd.Type.Params.NumFields() != 1 || hd.Type.Results.NumFields() != 2 || len(hd.Type.Params.List[0].Names) != 1 {
+			return true
+		}
+		okId, ok1 := as.Lhs[1].(*ast.Ident)
+		dId, ok2 := as.Lhs[0].(*ast.Ident)
+		cond, ok3 := ast.Unparen(ifs.Cond).(*ast.Ident)
+		if !ok1 || !ok2 || !ok3 || info.ObjectOf(cond) != info.ObjectOf(okId) {
+			return true
+		}
+		// the function: a switch over its parameter, every case a single return (v, true); after it return (_, false)
+		param := info.ObjectOf(hd.Type.Params.List[0].Names[0])
+		if len(hd.Body.List) != 2 {
+			return true
+		}
+		sw, ok := hd.Body.List[0].(*ast.SwitchStmt)
+		if !ok || sw.Init != nil || sw.Tag == nil {
+			return true
+		}
+		if id, ok := ast.Unparen(sw.Tag).(*ast.Ident); !ok || info.ObjectOf(id) != param {
+			return true
+		}
+		isBool := func(e ast.Expr, want bool) bool {
+			tv := info.Types[e]
+			return tv.Value != nil && tv.Value.Kind() == constant.Bool && constant.BoolVal(tv.Value) == want
+		}
+		last, ok := hd.Body.List[1].(*ast.ReturnStmt)
+		if !ok || len(last.Results) != 2 || !isBool(last.Results[1], false) {
+			return true
+		}
+		tbl := map[int64]int64{}
+		for _, cl := range sw.Body.List {
+			cc := cl.(*ast.CaseClause)
+			if len(cc.Body) != 1 {
+				return true
+			}
+			r, ok := cc.Body[0].(*ast.ReturnStmt)
+			if !ok || len(r.Results) != 2 {
+				return true
+			}
+			if cc.List == nil {
+				if !isBool(r.Results[1], false) {
+					return true
+				}
+				continue
+			}
+			if !isBool(r.Results[1], true) {
+				return true
+			}
+			for _, e := range cc.List {
+				tv := info.Types[e]
+				if tv.Value == nil {
+					return true
+				}
+				k, ok := constant.Int64Val(constant.ToInt(tv.Value))
+				if !ok {
+					return true
+				}
+				if rv := info.Types[r.Results[0]]; rv.Value != nil {
+					v, _ := constant.Int64Val(constant.ToInt(rv.Value))
+					tbl[k] = v
+				} else if id, ok := ast.Unparen(r.Results[0]).(*ast.Ident); ok && info.ObjectOf(id) == param {
+					tbl[k] = k
+				} else {
+					tbl[k] = -1
+				}
+			}
+		}
+		// the use: then-branch writes the decoded rune only, else-branch the backslash and the argument
+		thenW, okT := writes(ifs.Body)
+		if !okT || len(thenW) != 1 {
+			return true
+		}
+		if id, ok := ast.Unparen(thenW[0]).(*ast.Ident); !ok || info.ObjectOf(id) != info.ObjectOf(dId) {
+			return true
+		}
+		if eb, ok := ifs.Else.(*ast.BlockStmt); ok {
+			if ws, okE := writes(eb); okE && len(ws) == 2 {
+				if tv := info.Types[ws[0]]; tv.Value != nil {
+					if v, ok := constant.Int64Val(constant.ToInt(tv.Value)); ok && v == '\\' {
+						if nodeStr(c.Fset, ws[1]) == nodeStr(c.Fset, call.Args[0]) {
+							if _, isId := ast.Unparen(ws[1]).(*ast.Ident); isId {
+								keeps = true
+							}
+						}
+					}
+				}
+			}
+		}
+		for k, v := range tbl {
+			got[k] = v
+		}
+		hsw, found = sw, true
+		return true
+	})
+	if !found {
+		return nil, token.NoPos, false, false
+	}
+	return hsw, hsw.Pos(), keeps, true
 }
 
 // ---------------------------------------------------------------------------
@@ -780,25 +940,39 @@ exclusion:
 			problems = append(problems, name+" not found")
 			continue
 		}
+		// the matcher and the predicates of the package it is built from (isPlainDigit)
+		bodies := []ast.Node{fd.Body}
 		ast.Inspect(fd.Body, func(x ast.Node) bool {
-			call, ok := x.(*ast.CallExpr)
-			if !ok {
-				return true
-			}
-			if cal := Callee(info, call); cal != nil && cal.Pkg() != nil && cal.Pkg().Path() == "strings" && cal.Name() == "ContainsRune" {
-				if tv := info.Types[call.Args[0]]; tv.Value != nil && tv.Value.Kind() == constant.String {
-					nStr++
-					s := constant.StringVal(tv.Value)
-					a, b := []rune(s), []rune(supers)
-					sort.Slice(a, func(i, j int) bool { return a[i] < a[j] })
-					sort.Slice(b, func(i, j int) bool { return b[i] < b[j] })
-					if string(a) != string(b) {
-						problems = append(problems, fmt.Sprintf("%s excludes %q", name, s))
+			if call, ok := x.(*ast.CallExpr); ok {
+				if cal := Callee(info, call); cal != nil && cal.Pkg() == root.Types {
+					if hd := findFuncDecl(root, cal); hd != nil && hd.Body != nil && hd != fd {
+						bodies = append(bodies, hd.Body)
 					}
 				}
 			}
 			return true
 		})
+		for _, body := range bodies {
+			ast.Inspect(body, func(x ast.Node) bool {
+				call, ok := x.(*ast.CallExpr)
+				if !ok {
+					return true
+				}
+				if cal := Callee(info, call); cal != nil && cal.Pkg() != nil && cal.Pkg().Path() == "strings" && cal.Name() == "ContainsRune" {
+					if tv := info.Types[call.Args[0]]; tv.Value != nil && tv.Value.Kind() == constant.String {
+						nStr++
+						s := constant.StringVal(tv.Value)
+						a, b := []rune(s), []rune(supers)
+						sort.Slice(a, func(i, j int) bool { return a[i] < a[j] })
+						sort.Slice(b, func(i, j int) bool { return b[i] < b[j] })
+						if string(a) != string(b) {
+							problems = append(problems, fmt.Sprintf("%s excludes %q", name, s))
+						}
+					}
+				}
+				return true
+			})
+		}
 	}
 	if nStr == 0 {
 		c.Undecided(key, token.NoPos, "exclusion sets not found")
